@@ -205,7 +205,7 @@ package kvstore
 //@   ensures  #stored [C11 C17]: result == nil ==> len(k.tables) >= 1 && k.tables[len(k.tables)-1].has(hkey) &&
 //@                k.tables[len(k.tables)-1].keyOf(hkey) == value.key && k.tables[len(k.tables)-1].valOf(hkey) == old(bstr(value.value)) &&
 //@                k.tables[len(k.tables)-1].ttlOf(hkey) == value.ttl && k.tables[len(k.tables)-1].tsOf(hkey) == value.timestamp
-//@   ensures  #unique [C11]: result == nil ==> forall j int {k.tables[j]} :: 0 <= j && j < len(k.tables) - 1 ==> !k.tables[j].has(hkey)
+//@   ensures  #unique [C11 C20]: result == nil ==> forall j int {k.tables[j]} :: 0 <= j && j < len(k.tables) - 1 ==> !k.tables[j].has(hkey)
 //@   ensures  #inv_out: k.inv()
 //@   loop 0 invariant #retry: k.inv() && len(k.tables) >= 1 && 29 + len(value.key) + len(value.value) < k.tableSize &&
 //@                (forall i int {k.tables[i]} :: 0 <= i && i < len(k.tables) ==> base(value.value) != base(k.tables[i].memory)) &&
@@ -223,7 +223,7 @@ package kvstore
 //@   ensures  #too_large [C17]: (result == storage.ErrEntryTooLarge) == (len(value) >= k.tableSize)
 //@   ensures  #err_kind [C17]: result == nil || result == storage.ErrEntryTooLarge
 //@   ensures  #stored [C11 C04]: result == nil ==> len(k.tables) >= 1 && k.tables[len(k.tables)-1].has(hkey) && k.tables[len(k.tables)-1].size(hkey) == len(value)
-//@   ensures  #unique [C11]: result == nil ==> forall j int {k.tables[j]} :: 0 <= j && j < len(k.tables) - 1 ==> !k.tables[j].has(hkey)
+//@   ensures  #unique [C11 C20]: result == nil ==> forall j int {k.tables[j]} :: 0 <= j && j < len(k.tables) - 1 ==> !k.tables[j].has(hkey)
 //@   ensures  #inv_out: k.inv()
 //@   loop 0 invariant #retry: k.inv() && len(k.tables) >= 1 && len(value) < k.tableSize && entry.wfAt(elems(value), off(value), len(value)) &&
 //@                (forall i int {k.tables[i]} :: 0 <= i && i < len(k.tables) ==> base(value) != base(k.tables[i].memory))
